@@ -194,7 +194,8 @@ def gen_case(g, tier, idx):
     if style == "scaled":
         # units: the property constrains shapes and conditioning, not magnitudes (affine h: the scaling is exact in R)
         kind = 0
-        xscale, yscale = 10 ** r.uniform(-10, 10), 10 ** r.uniform(-10, 10)
+        ylim = min(10.0, 120.0 / msz)      # det(S) ~ yscale^(2 msz) must stay inside the double range (the code takes log(det))
+        xscale, yscale = 10 ** r.uniform(-10, 10), 10 ** r.uniform(-ylim, ylim)
     ncalls = r.choice([1, 2, 2, 3])
     if style in ("varsize", "moved"):
         ncalls = r.choice([2, 3, 3])
@@ -427,6 +428,8 @@ def relrec(stats, key, err, tol):
 
 
 def lik_close(a, b, t):
+    if a == b:
+        return True
     big = max(abs(a), abs(b))
     return math.isfinite(a) and math.isfinite(b) and abs(a - b) <= big * math.expm1(min(t, 50.0)) + 8 * EPS * big + TINY
 
